@@ -226,11 +226,11 @@ theorem scan_usable_implies_spendable (P : Params) (hP : ParamsOK P) (chain : Li
 
 /-! ### the ghost fields are the consensus entry -/
 
-/-- `ghost_is_consensus_entry`: along every globally valid walk without wallet vote outputs, each
+/-- `ghost_is_consensus_entry`: along every globally valid walk, each
     wallet UTXO is an output of the GLOBAL unspent set of the wallet's chain, and the consensus
     type and creation height the theorems above use for it (`gKind`, `gHeight`) are the ones the
     global set records for that output. -/
-theorem ghost_is_consensus_entry (P : Params) (steps : List Step) (hw : GWalkOK P true steps [])
+theorem ghost_is_consensus_entry (P : Params) (steps : List Step) (hw : GWalkOK P steps [])
     (hc : GChainOK P (walk P steps ([], [])).1) (id : Nat) (u : Utxo)
     (hu : dbGet id (walk P steps ([], [])).2 = some u) :
     ∃ v, dbGet id (rescan (allOf P) (walk P steps ([], [])).1) = some v ∧
@@ -262,8 +262,8 @@ theorem ghost_is_consensus_entry (P : Params) (steps : List Step) (hw : GWalkOK 
       · cases hown
 
 /-- popping keeps a globally valid chain globally valid; pushing a globally valid block too -/
-theorem gchain_of_gwalk (P : Params) (nv : Bool) : ∀ (steps : List Step) (chain : List Block) (db : DB),
-    GChainOK P chain → GWalkOK P nv steps chain → GChainOK P (walk P steps (chain, db)).1 := by
+theorem gchain_of_gwalk (P : Params) : ∀ (steps : List Step) (chain : List Block) (db : DB),
+    GChainOK P chain → GWalkOK P steps chain → GChainOK P (walk P steps (chain, db)).1 := by
   intro steps
   induction steps with
   | nil => intro chain db hc _; exact hc
@@ -271,7 +271,7 @@ theorem gchain_of_gwalk (P : Params) (nv : Bool) : ∀ (steps : List Step) (chai
     intro chain db hc hw
     cases st with
     | push b =>
-      obtain ⟨hv, _, hrest⟩ := hw
+      obtain ⟨hv, hrest⟩ := hw
       simp only [walk, List.foldl_cons, stepW]
       exact ih (b :: chain) _ ⟨hv, hc⟩ hrest
     | pop =>
@@ -279,18 +279,18 @@ theorem gchain_of_gwalk (P : Params) (nv : Bool) : ∀ (steps : List Step) (chai
       | nil => simp only [walk, List.foldl_cons, stepW]; exact ih [] db trivial hw
       | cons b c => simp only [walk, List.foldl_cons, stepW]; exact ih c _ hc.2 hw
 
-/-- `usable_implies_spendable_global`: along every globally valid walk without wallet vote
+/-- `usable_implies_spendable_global`: along every globally valid walk
     outputs, a usable wallet UTXO that is not a restored coinbase/vote output is an output of
     the global unspent set whose consensus entry (type, creation height) allows spending it at
     the next height. -/
 theorem usable_implies_spendable_global (P : Params) (hP : ParamsOK P) (steps : List Step)
-    (hw : GWalkOK P true steps []) (id : Nat) (u : Utxo) (H : Nat)
+    (hw : GWalkOK P steps []) (id : Nat) (u : Utxo) (H : Nat)
     (hu : dbGet id (walk P steps ([], [])).2 = some u)
     (hnot : u.validHeight ≠ 0 ∨ u.gKind = 0) (huse : usable u H = true) :
     ∃ v, dbGet id (rescan (allOf P) (walk P steps ([], [])).1) = some v ∧
       spendableAt P v.gKind v.gHeight (H + 1) = true := by
   obtain ⟨v, hv, hk, hh, _⟩ := ghost_is_consensus_entry P steps hw
-    (gchain_of_gwalk P true steps [] [] trivial hw) id u hu
+    (gchain_of_gwalk P steps [] [] trivial hw) id u hu
   refine ⟨v, hv, ?_⟩
   rw [hk, hh]
   exact usable_implies_spendable_partial P hP steps id u H hu hnot huse
@@ -307,7 +307,7 @@ def Linked : List Step → List Block → Prop
 /-- FULL statement: after every valid, linked walk every usable wallet UTXO is spendable at the
     next height. Refuted below. -/
 def usable_implies_spendable_full : Prop :=
-  ∀ (P : Params), ParamsOK P → ∀ (steps : List Step), WalkOK P true steps [] → Linked steps [] →
+  ∀ (P : Params), ParamsOK P → ∀ (steps : List Step), WalkOK P steps [] → Linked steps [] →
     ∀ id u, dbGet id (walk P steps ([], [])).2 = some u →
       usable u (tipHeight (walk P steps ([], [])).1) = true →
       spendableAt P u.gKind u.gHeight (tipHeight (walk P steps ([], [])).1 + 1) = true
